@@ -52,6 +52,11 @@ SHARED = {
     "v_prec": dict(lit="{_variant:.2}", args="", mention=True, reject=True),
     "v_width_arg": dict(lit="{_variant:1$}", args="_variant, 4usize", mention=True, reject=True),
     "pos_alias": dict(lit="[{0}]", args="v = _variant", mention=True),
+    # whitespace-only text after / before the sole placeholder is still text
+    "v_nl": dict(lit="{_variant}\n", args="", mention=True),
+    "arg_sp": dict(lit="{} ", args="_variant", mention=True),
+    "sp_v": dict(lit="\t{_variant}", args="", mention=True),
+    "f0_nl": dict(lit="{_0}\n", args="", mention=False, needs=["_0"]),
     "escaped": dict(lit="{{_variant}}", args="", mention=False),
     "v_ws": dict(lit="<{_variant }>", args="", mention=True),
 }
@@ -64,7 +69,7 @@ def words_case(name, c):
 
 
 def lit_rs(s):
-    return '"' + s.replace("\\", "\\\\").replace('"', '\\"') + '"'
+    return '"' + s.replace("\\", "\\\\").replace('"', '\\"').replace("\n", "\\n").replace("\t", "\\t") + '"'
 
 
 SINGLE_SPEC = ("v_align", "v_fill", "v_sign", "v_minus", "v_alt", "v_zero", "v_width_only", "v_prec", "v_width_arg")
